@@ -37,7 +37,7 @@ class Prop:
     thorough_runs = 500000
     chunk = 60
     rule = ("per seeded scenario (one cold/hot/sync inner timeline; using with counting resources - plain, falsy (an empty container), an empty CompositeDisposable filled by the observable factory, or None - finally_action, do_finally, do_action, "
-            "do, tap and the do_* variants; 1-2 subscriptions) an undisturbed run, then one run per dispose point (every distinct instant "
+            "do, tap and the do_* variants; 1-2 subscriptions) an undisturbed run, one run in which the subscriber's own terminal callback raises (finally_action), then one run per dispose point (every distinct instant "
             "x {early, late tie}, inside the k-th notification) and per exception position (resource factory, observable factory, k-th call "
             "of each side-effect callback). Checked: every created resource disposed exactly once per subscription, no later than the "
             "terminal / dispose instant, also when the observable factory fails; finally actions exactly once per subscription and after "
@@ -51,6 +51,9 @@ class Prop:
         kind = rng.choice(KINDS)
         ctx = catalog.Ctx(rng, hot_p=0.4, falsy_p=0.3, sync_p=0.15)
         ctx.new_source(maxn=5)
+        if ctx.sources[0]["kind"] in ("sync", "cold") and rng.random() < 0.3:
+            # first event inside subscribe() and NOT shielded by the emitter: what the subscriber raises there unwinds through subscribe()
+            ctx.sources[0]["kind"] = "syncthen"
         sc = {"clock": rng.choice(["test", "test", "historical"]), "kind": kind, "sources": ctx.sources, "subs": rng.choice([1, 1, 2]), "sub_t": 205, "horizon": 1200}
         if kind == "using":
             sc["res"] = rng.choice(["plain", "plain", "falsy", "bag", "none"])
@@ -130,6 +133,8 @@ class Prop:
         recs = []
         for i in range(sc["subs"]):
             r = vt.Recorder(w, "r%d" % i, follow=False, dispose_at=d.get("note") if i == 0 else None)
+            if sc.get("sub_raises") and i == 0:
+                r.raise_on_terminal = "always"  # the subscriber's own terminal callback raises (also while subscribe() is still running)
             recs.append(r)
             w.at(sc["sub_t"] + 40 * i, (lambda r=r: _sub(r, obs)))
         if "t" in d:
@@ -143,7 +148,8 @@ class Prop:
         fault = sc.get("fault")
         d = sc.get("dispose")
         spec = sc["sources"][0]
-        desc = "kind=%s%s fault=%s dispose=%s subs=%d source=%s" % (kind, ("(resource=%s)" % sc["res"]) if "res" in sc else "", fault, d, sc["subs"], (spec["kind"], spec["events"]))
+        desc = "kind=%s%s fault=%s dispose=%s%s subs=%d source=%s" % (kind, ("(resource=%s)" % sc["res"]) if "res" in sc else "", fault, d,
+                                                                   " subscriber's terminal callback raises" if sc.get("sub_raises") else "", sc["subs"], (spec["kind"], spec["events"]))
         out.digest = (kind, repr(fault), repr(d), tuple(r.kinds() for r in recs))
         out.sim_time = sc["horizon"]
         fired = bool(w.fired)
@@ -162,7 +168,7 @@ class Prop:
             if g:
                 bad("grammar", g)
         esc = [e for e in w.escaped if isinstance(e[3], vt.InjectedFault)]
-        if esc and kind != "do_on_dispose" and not (kind in ("finally_action", "do_finally")):
+        if esc and kind != "do_on_dispose" and not (kind in ("finally_action", "do_finally")) and not sc.get("sub_raises"):
             bad("escaped", "InjectedFault escaped into %s" % esc[0][2])
 
         def end_of(r):
@@ -241,7 +247,7 @@ class Prop:
         return w, recs, cbs
 
     def execute(self, sc):
-        if "dispose" in sc or "fault" in sc or sc.get("single"):
+        if "dispose" in sc or "fault" in sc or sc.get("single") or sc.get("sub_raises"):
             out = Outcome()
             self.check(sc, out)
             return out
@@ -259,6 +265,11 @@ class Prop:
         plans += [{"dispose": {"note": k}} for k in range(min(3, len(recs[0].events)))]
         # exception positions
         kind = sc["kind"]
+        if kind == "finally_action":
+            # finally_action promises its action also when an exception unwinds through subscribe() (it guards source.subscribe);
+            # using / do_finally make no such promise: a subscriber that raises while the pipeline is still being assembled is a
+            # double fault no statement covers
+            plans += [{"sub_raises": True, "subs": 1}]
         if kind == "using":
             plans += [{"fault": {"site": "resource_factory", "k": 0}}, {"fault": {"site": "observable_factory", "k": 0}}]
         else:
